@@ -269,6 +269,32 @@ func c10(args []string) int {
 	if done > len(jobs) {
 		done = len(jobs)
 	}
+	// command-line half (c10cli.go)
+	cliRuns, cliStatus := 0, "not run: "+c10CLIPath()+" missing (run.sh builds it)"
+	cliOutcomes := map[string]int{}
+	if _, err := os.Stat(c10CLIPath()); err == nil {
+		cliStatus = "ran"
+		work := filepath.Join(root, "cli")
+		os.MkdirAll(work, 0o755)
+		for i, r := range reps {
+			if i >= 2 && !thorough {
+				break
+			}
+			probs, n, oc, herr := c10CLI(r, work)
+			if herr != nil {
+				fmt.Fprintln(os.Stderr, "HARNESS ERROR (no verdict):", herr)
+				return 2
+			}
+			cliRuns += n
+			for k, v := range oc {
+				cliOutcomes[k] += v
+			}
+			for _, p := range probs {
+				rep.Report(&ev.Violation{Kind: p.Kind, Signature: fmt.Sprintf("%s|%s|%s", p.Kind, r.Name, strings.SplitN(p.Detail, ":", 2)[0]),
+					Detail: map[string]any{"replica": r.Name, "history": r.Hist, "problem": p.String()}})
+			}
+		}
+	}
 	exhaustive := done == len(jobs) && thorough
 	if len(samples) == 0 {
 		samples = append(samples, "(none)")
@@ -294,7 +320,8 @@ func c10(args []string) int {
 		Coverage: map[string]any{
 			"evaluations": evals, "distinct_nontrivial": len(outcomes),
 			"rule":    "for each replica built by a real history and each file of its restore plan: delete it, truncate it to every length, XOR every byte with 0x01 and with 0xFF, and fail its download (error / premature EOF) at every byte offset 1..4 consecutive times; plus pre-existing output (file, directory, symlink) and a forced integrity failure; oracle: outcome is an error, or success with bytes identical to the uncorrupted restore; never <output>.tmp left, never an output after an error, never an existing path touched; distinct = (corruption class, outcome class) pairs",
-			"samples": samples, "exhaustive": exhaustive, "jobs_planned": len(jobs), "jobs_done": done, "replicas": plans, "outcome_classes": top,
+			"samples": samples, "exhaustive": exhaustive, "jobs_planned": len(jobs), "jobs_done": done, "cli_restore_invocations": cliRuns, "cli_restore_status": cliStatus, "cli_restore_outcomes": cliOutcomes,
+			"cli_rule": "the real `litestream restore` binary for every (output path absent | empty file | live database with an un-checkpointed -wal) x (no flag | -force | -if-db-not-exists) x (latest | timestamp): success = SQLite reads at the output path exactly the restore of the same target into a fresh path; refusal / skip = path and sidecars untouched", "replicas": plans, "outcome_classes": top,
 		}}
 	if err := ev.Write(e); err != nil {
 		fmt.Fprintln(os.Stderr, err)
